@@ -13,7 +13,7 @@ use vt::engine::{Check, Fail, Obs};
 use vt::gen::{self, GenCfg};
 use vt::model::{georef, Advert, Coord, Fmt, MemReader, Pay, SetSpec, TileSet};
 use vt::sources::{encode_fixture, Source};
-use vt::util::{Comp, TmpGuard};
+use vt::util::{self, Comp, TmpGuard};
 use vt::{ensure_prop, fail};
 
 #[derive(Clone, Debug, Serialize, Deserialize)]
@@ -414,11 +414,118 @@ fn lib_oracle(case: &LibCase, obs: &mut Obs) -> Result<(), Fail> {
 	}
 }
 
+
+// ---------------------------------------------------------------------------------------
+// phase 3: `versatiles serve` with transform flags against a conversion with the same flags
+// ---------------------------------------------------------------------------------------
+
+#[derive(Clone, Debug, Serialize, Deserialize)]
+struct SrvCase {
+	spec: SetSpec,
+	source: Target,
+	enc: Option<u32>,
+	flip_y: bool,
+	swap_xy: bool,
+}
+
+fn srv_strategy() -> impl Strategy<Value = SrvCase> {
+	let mut cfg = GenCfg::small(vec![(Fmt::Png, Comp::None), (Fmt::Pbf, Comp::Gzip), (Fmt::Jpg, Comp::None), (Fmt::Webp, Comp::None)]);
+	cfg.max_side = 8;
+	cfg.max_zoom = 20;
+	cfg.heavy_payloads = false;
+	cfg.really_compressed = true;
+	cfg.adverts = vec![Advert::Tight];
+	(gen::set_spec(cfg), 0usize..5, proptest::option::of(any::<u32>()), 0u8..8).prop_map(|(mut spec, s, enc, f)| {
+		spec.pay = Pay::CoordText;
+		// both flags in half of the cases
+		let (flip_y, swap_xy) = match f {
+			0 => (true, false),
+			1 => (false, true),
+			2 => (false, false),
+			_ => (true, true),
+		};
+		SrvCase { spec, source: Target::ALL[s], enc, flip_y, swap_xy }
+	})
+}
+
+fn srv_oracle(case: &SrvCase, obs: &mut Obs) -> Result<(), Fail> {
+	use vt::server::{Exchange, Server};
+	let set = case.spec.materialise();
+	let mut guards = vec![];
+	let c = Case { spec: case.spec.clone(), source: case.source, enc: case.enc, target: Target::Versatiles, opts: Opts { min_zoom: None, max_zoom: None, bbox: None, border: None, flip_y: case.flip_y, swap_xy: case.swap_xy } };
+	let src = make_source(&c, &set, &mut guards)?;
+	// conversion with the same flags
+	let dst = Target::Versatiles.fresh_path();
+	guards.push(TmpGuard(dst.clone()));
+	let mut args: Vec<String> = vec!["convert".into()];
+	if case.flip_y {
+		args.push("--flip-y".into());
+	}
+	if case.swap_xy {
+		args.push("--swap-xy".into());
+	}
+	args.push(src.to_str().unwrap().into());
+	args.push(dst.to_str().unwrap().into());
+	let out = vt::cli::run(&args);
+	ensure_prop!(out.status == Some(0), "convert:cli-failed", "convert with flip={} swap={} failed: {}", case.flip_y, case.swap_xy, out.stderr.lines().last().unwrap_or(""));
+	let conv = decode_independent(Target::Versatiles, &dst).map_err(|e| Fail::new("layout:undecodable", e))?;
+	// the server with the same flags
+	let mut sargs: Vec<String> = vec![];
+	if case.flip_y {
+		sargs.push("--flip-y".into());
+	}
+	if case.swap_xy {
+		sargs.push("--swap-xy".into());
+	}
+	sargs.push(vt::server::source_arg(&src, "src"));
+	let mut server = Server::start(&sargs);
+	let mut probes: BTreeSet<Coord> = BTreeSet::new();
+	for c in set.probes(1, 60) {
+		probes.insert(c);
+		if c.in_range() {
+			probes.insert(forward(&c, &c_opts(case)));
+		}
+	}
+	let mut requests = 0u64;
+	for c in &probes {
+		let target = format!("/tiles/src/{}/{}/{}", c.z, c.x, c.y);
+		requests += 1;
+		match server.get(&target, &[("Accept-Encoding", "gzip, br")]) {
+			Exchange::Dropped(e) => fail!("serve:connection-dropped", "GET {target} with flip={} swap={}: {e}", case.flip_y, case.swap_xy),
+			Exchange::Response(r) => {
+				let want = conv.tiles.get(c);
+				match (want, r.status) {
+					(Some(w), 200) => {
+						let body = r.decoded_body().map_err(|e| Fail::new("serve:undecodable-body", format!("GET {target}: {e}")))?;
+						let raw = util::decompress(w, case.spec.comp).map_err(|e| Fail::new("harness:decompress", e))?;
+						ensure_prop!(body == raw, "serve:mapping-differs-from-convert", "GET {target} with flip={} swap={} returns {:?}, the converted file holds {:?} at {c}", case.flip_y, case.swap_xy, String::from_utf8_lossy(&body[..body.len().min(40)]), String::from_utf8_lossy(&raw[..raw.len().min(40)]));
+					}
+					(None, 404) | (None, 400) => {}
+					(Some(_), st) => fail!("serve:mapping-differs-from-convert", "GET {target} with flip={} swap={} gives status {st}, the converted file holds a tile at {c}", case.flip_y, case.swap_xy),
+					(None, st) => {
+						let body = r.decoded_body().unwrap_or_default();
+						fail!("serve:mapping-differs-from-convert", "GET {target} with flip={} swap={} gives status {st} ({:?}), the converted file holds no tile at {c}", case.flip_y, case.swap_xy, String::from_utf8_lossy(&body[..body.len().min(40)]))
+					}
+				}
+			}
+		}
+	}
+	obs.count("requests", requests);
+	obs.label(format!("flip={},swap={}", case.flip_y, case.swap_xy));
+	obs.label(format!("source:{}", case.source.name()));
+	obs.nontrivial(case.flip_y && case.swap_xy && conv.tiles.len() >= 2);
+	Ok(())
+}
+
+fn c_opts(case: &SrvCase) -> Opts {
+	Opts { min_zoom: None, max_zoom: None, bbox: None, border: None, flip_y: case.flip_y, swap_xy: case.swap_xy }
+}
+
 fn main() {
 	let mut check = Check::from_args(
 		"C06",
 		"exploration",
-		"phase cli: tile sets with unique payloads in a source container of any format (repository writer or harness encoder) x `versatiles convert` options --min-zoom/--max-zoom (incl. min > max, beyond the range), --bbox (derived from the plain or transformed coverage in tile space: on tile edges, cutting tiles, degenerate points; world, Mercator limits, poles, antimeridian), --bbox-border (0..4, 300, u32::MAX), --flip-y, --swap-xy x target format; expected output from the model: c present iff zoom in range and c definitely inside the bbox (+border) by the independent Mercator reference (guard-band tiles don't care) and the source has a tile at the pre-image of c under 'flip then swap'; output decoded by the independent decoder; an empty selection may fail. phase library: TilesConvertReader with flags, zoom selection and integer tile-box selections: lookups over tiles/pre-images/neighbours, streams over the advertised level boxes and the advertised coverage against the same model. non-trivial = >= 2 tiles and (both flags set, or a selection that cuts the coverage)",
+		"phase cli: tile sets with unique payloads in a source container of any format (repository writer or harness encoder) x `versatiles convert` options --min-zoom/--max-zoom (incl. min > max, beyond the range), --bbox (derived from the plain or transformed coverage in tile space: on tile edges, cutting tiles, degenerate points; world, Mercator limits, poles, antimeridian), --bbox-border (0..4, 300, u32::MAX), --flip-y, --swap-xy x target format; expected output from the model: c present iff zoom in range and c definitely inside the bbox (+border) by the independent Mercator reference (guard-band tiles don't care) and the source has a tile at the pre-image of c under 'flip then swap'; output decoded by the independent decoder; an empty selection may fail. phase library: TilesConvertReader with flags, zoom selection and integer tile-box selections: lookups over tiles/pre-images/neighbours, streams over the advertised level boxes and the advertised coverage against the same model. phase serve: `versatiles serve --flip-y/--swap-xy` over a generated source: GET /tiles/<id>/z/x/y for all tile coordinates, their images and neighbours must equal (200 + payload / 404) the independently decoded output of `versatiles convert` with the same flags. non-trivial = >= 2 tiles and (both flags set, or a selection that cuts the coverage)",
 	);
 	check.assume("compression is left unchanged (C04 covers recompression)");
 	vt::engine::watchdog(3600);
@@ -429,5 +536,9 @@ fn main() {
 	let reg: Vec<Case> = check.regression_cases("cli");
 	check.enumerate("regress-cli", reg, false, cli_oracle);
 	check.phase("cli", check.cases(3000, 60_000), strategy, cli_oracle);
+	let reg: Vec<SrvCase> = check.regression_cases("serve");
+	check.enumerate("regress-serve", reg, false, srv_oracle);
+	check.workers = check.workers.min(8);
+	check.phase("serve", check.cases(240, 6000), srv_strategy, srv_oracle);
 	check.finish();
 }
